@@ -1478,7 +1478,13 @@ func (vx *Vaxis) openTty(tgts []*os.File) error {
 		}()
 		for {
 			select {
-			case seq := <-parser.Next():
+			case seq, ok := <-parser.Next():
+				if !ok {
+					// Suspend took the EOF while it waited for the
+					// parser to stop
+					verifC10(vx, "input.closed")
+					return
+				}
 				switch seq := seq.(type) {
 				case ansi.EOF:
 					verifC10(vx, "input.eof")
